@@ -4,7 +4,7 @@
    jpeg_nbits.h).  Generated facts: gen/GenNbits.v, gen/GenStdHuff.v. *)
 From Coq Require Import List ZArith Bool Permutation.
 From LJT Require Import model.Huff gen.GenNbits gen.GenStdHuff proofs.NbitsProofs proofs.HuffCodeProofs
-  proofs.HuffGenProofs3 proofs.HuffGenProofs4.
+  proofs.HuffGenProofs3 proofs.HuffGenProofs4 proofs.HuffGenDepth.
 Import ListNotations.
 Local Open Scope Z_scope.
 
@@ -127,3 +127,41 @@ Theorem C19_clen_overflow_refuted :
   hyps (fibs 36 1 2) /\ gen_optimal_table (fibs 36 1 2) = inl ClenOverflow.
 Proof. exact gen_table_deep_boundary. Qed.
 Print Assumptions C19_clen_overflow_refuted.
+
+(* ---- when can the CLEN_OVERFLOW branch occur?  A code length c forces the
+   total count (incl. the pseudo-symbol) to be at least fib (c + 2): greedy
+   merging of the two smallest frequencies makes every subtree of depth d weigh
+   at least fib (d + 2).  Hence below fib 35 = 9227465 the generator ALWAYS
+   returns a valid table, and the bound is exact (witnesses below). *)
+Theorem C19_gen_no_clen_overflow : forall freq256,
+  (forall f, In f freq256 -> 0 <= f) ->
+  sumZ (firstn 256 freq256) + 1 < 9227465 ->
+  (length (nz_scan (firstn 256 freq256) 0) <= 254)%nat ->
+  gen_optimal_table freq256 <> inl ClenOverflow.
+Proof. exact gen_no_clen_overflow. Qed.
+Print Assumptions C19_gen_no_clen_overflow.
+
+Theorem C19_codesize_forces_fibonacci_total : forall freq256 nz cs,
+  (forall f, In f freq256 -> 0 <= f) ->
+  sumZ (firstn 256 freq256) + 1 <= SENT ->
+  (length (nz_scan (firstn 256 freq256) 0) <= 254)%nat ->
+  gen_codesizes freq256 = inr (nz, cs) ->
+  forall c, In c cs -> fibz (c + 2) <= sumZ (firstn 256 freq256) + 1.
+Proof. exact gen_codesizes_fib. Qed.
+Print Assumptions C19_codesize_forces_fibonacci_total.
+
+(* sharpness: total = fib 35 - 1 still yields a table (with a 32-bit untruncated
+   code length among the code sizes); total = fib 35 exactly can overflow *)
+Theorem C19_no_overflow_at_fib35_minus_1 :
+  hyps (fibs 32 1 2) /\ sumZ (fibs 32 1 2) = 9227463 /\
+  (exists nz cs, gen_codesizes (fibs 32 1 2) = inr (nz, cs) /\ In 32 cs) /\
+  exists t, gen_optimal_table (fibs 32 1 2) = inr t.
+Proof. exact gen_no_overflow_32. Qed.
+Print Assumptions C19_no_overflow_at_fib35_minus_1.
+
+Theorem C19_overflow_at_fib35 :
+  let h := rev (fibs 33 1 1) in
+  hyps h /\ sumZ (firstn 256 h) + 1 = 9227465 /\
+  gen_optimal_table h = inl ClenOverflow.
+Proof. exact gen_no_clen_overflow_sharp. Qed.
+Print Assumptions C19_overflow_at_fib35.
